@@ -148,12 +148,16 @@ def generate():
     print(stats)
 
 
-def run(checks, limit, tier, site_filter=None):
+def run(checks, limit, tier, site_filter=None, rerun_alive=False):
     surv = json.load(open(os.path.join(OUT, 'survivors.json')))['survivors']
     if site_filter:
         surv = [s for s in surv if re.search(site_filter, s['site'])]
     res_path = os.path.join(OUT, 'results.json')
     results = json.load(open(res_path)) if os.path.exists(res_path) else {}
+    if rerun_alive:      # the generators changed: forget what was run against the mutants that are still alive
+        for v in results.values():
+            if not v.get('killed_by'):
+                v['detail'] = {}
     # incremental passes: a mutant already killed is skipped, checks already run against it are not repeated
     todo = [s for s in surv if not (results.get(s['id']) or {}).get('killed_by')
             and any(c not in (results.get(s['id']) or {}).get('detail', {}) for c in checks)][:limit]
@@ -196,9 +200,10 @@ if __name__ == '__main__':
     ap.add_argument('--checks', default='C01,C07,C14,C15,C06,C05,C08')
     ap.add_argument('--limit', type=int, default=10 ** 6)
     ap.add_argument('--tier', default='quick')
+    ap.add_argument('--rerun-alive', action='store_true')
     ap.add_argument('--sites', default=None, help='regex over the site description, e.g. "\\[|Caseless|results name|guard|alternative|argument" to leave the +/- flips out')
     a = ap.parse_args()
     if a.cmd == 'generate':
         generate()
     else:
-        run(a.checks.split(','), a.limit, a.tier, a.sites)
+        run(a.checks.split(','), a.limit, a.tier, a.sites, a.rerun_alive)
